@@ -247,3 +247,27 @@ func canSkip(from, via, target *ssa.BasicBlock) bool {
 	}
 	return reachableFrom([]*ssa.BasicBlock{from}, map[*ssa.BasicBlock]bool{via: true})[target]
 }
+
+// isFrameLocals: the field is the variable table of a frame — the map[string]*Cell field of the frame
+// struct (named `locals` today; recognised by its type, not its name).
+func isFrameLocals(sf structField) bool {
+	if sf.Struct == nil || sf.Struct.Obj().Name() != "stackFrame" {
+		return false
+	}
+	st, ok := sf.Struct.Underlying().(*types.Struct)
+	if !ok {
+		return false
+	}
+	for i := 0; i < st.NumFields(); i++ {
+		if st.Field(i).Name() != sf.Name {
+			continue
+		}
+		m, ok := st.Field(i).Type().Underlying().(*types.Map)
+		if !ok {
+			return false
+		}
+		pt, ok := m.Elem().(*types.Pointer)
+		return ok && isLangNamed(pt.Elem(), "Cell")
+	}
+	return false
+}
